@@ -28,6 +28,13 @@ func (svm *StubVM) VExists() bool {
 	return svm.sis.servers[svm.id] == svm
 }
 
+// VCount returns the number of VMs that exist in the instance set (no rate limit, no side effect).
+func (sis *StubInstanceSet) VCount() int {
+	sis.mtx.RLock()
+	defer sis.mtx.RUnlock()
+	return len(sis.servers)
+}
+
 // VTruth returns the API-side state and priority of a container (q.Containers), not the cache.
 func (q *Queue) VTruth(uuid string) (state string, prio int64, ok bool) {
 	q.mtx.Lock()
